@@ -5,7 +5,7 @@ from contracts.common import (CIRCLE, ELLIPSE, RECTANGLE, POINT, LINE, TEXT, INC
 from spec.geometry import (between, cs, disk_closed, disk_open, ellipse_closed, ellipse_open, included, rect_closed,
                            rect_open)
 from spec.arrays import bool_like, elem, idx_ok
-from vprim import implies
+from vprim import implies, is_array, shape_of
 
 QI = {q + '-' + i: {'q': q, 'inc': i} for q in QUERIES for i in INCS}
 QIU = {q + '-' + i + '-' + un: {'q': q, 'inc': i, 'unit': un} for q in QUERIES for i in INCS for un in UNITS}
@@ -276,3 +276,22 @@ class region_in_operator:
         return dict(self=anyregion(B, 'r'), coord=query(B, q))
     raises = {'ValueError': lambda coord: not coord.isscalar}
     post = {'same_as_contains': lambda self, coord, result: bool(result) == bool(self.contains(coord))}
+
+
+def _contains_of_new_coordinates(region, xs, ys):
+    from regions.core.pixcoord import PixCoord
+    return region.contains(PixCoord(xs, ys))
+
+
+@contract(CIRCLE + '.contains', props=['C01', 'C20'])
+class answer_has_the_shape_of_the_coordinate_arrays_given:
+    """the coordinates go through the real PixCoord constructor: a one-element array is still an array"""
+    cases = {'1d': {'rank': 1}, '2d': {'rank': 2}}
+
+    def setup(B, rank=1):
+        n, m = B.int('n'), B.int('m')
+        shape = (n,) if rank == 1 else (n, m)
+        return dict(region=circle(B, 'r', 'bool'), xs=B.array('xs', shape), ys=B.array('ys', shape))
+    pre = lambda region: circle_ok(region)
+    call = lambda region, xs, ys: _contains_of_new_coordinates(region, xs, ys)
+    post = {'array_of_the_same_shape': lambda xs, result: is_array(result) and shape_of(result) == shape_of(xs)}
